@@ -1,0 +1,9 @@
+// Copyright JAMF Software, LLC
+
+//go:build !verif
+
+package cluster
+
+import "github.com/hashicorp/memberlist"
+
+func verifMemberlist(*memberlist.Config) {}
